@@ -126,6 +126,10 @@ def semantic_texts(seed, quick):
         ('unicode-string-key', 'root packet A { string K, match K as Body { "消息" : B, }, }\npacket B { }'),
         ('string-escapes', 'root packet A { string K, match K as Body { "a\\"b\\\\c" : B, }, u32 C @calculatedFrom("x\\"y"), }\npacket B { }'),
         ('crlf', 'root packet A {\r\n    u8 X, // c\r\n}\r\n'),
+        ('ident/snake-packets', 'root packet order_entry { u8 msg_type, match msg_type as msg_body { 1 : logon_req, 2 : Heartbeat, }, sub_order an_item, repeat sub_order, }\npacket logon_req { string user_name, }\npacket Heartbeat { }\npacket sub_order { u8 x, }'),
+        ('ident/lower-packets', 'root packet orderEntry { u8 msgType, match msgType as msgBody { 1 : logonReq, }, subOrder item, }\npacket logonReq { string userName, }\npacket subOrder { inner { u8 x, }, }'),
+        ('ident/caps-packets', 'root packet ORDER { u8 KIND, match KIND as BODY { 1 : LOGON, }, SUB ITEM, }\npacket LOGON { string USER, }\npacket SUB { u8 X, }'),
+        ('ident/digits', 'root packet Order2 { u8 Kind3, match Kind3 as Body4 { 1 : Logon5, }, Sub6 Item7, }\npacket Logon5 { string User8, }\npacket Sub6 { u8 X9, }'),
     ]
     out += rec
     bases = [p for p in gen.matrix_protos() if p.tag.startswith(('Ml', 'Mm', 'Md', 'Mo'))]
